@@ -17,3 +17,6 @@ def rules(ctx):
     S.refcount_rules(ctx)
     S.allocator_snapshot_complete_rules(ctx)
     S.system_freed_store_rules(ctx)
+    S.mutator_release_rules(ctx)
+    S.free_verdict_rules(ctx)
+    S.key_compare_rules(ctx)
